@@ -12,6 +12,10 @@ ALLOWED_AXIOMS = {
     'ClassicalDedekindReals.sig_not_dec', 'ClassicalDedekindReals.sig_forall_dec',
     'FunctionalExtensionality.functional_extensionality_dep', 'Classical_Prop.classic',
 }
+# every file of the development compiles in under a minute (slowest: TimeFacts.v, 50 s); a per-file limit turns a proof script that no longer terminates into a named failure
+# within minutes instead of a build that runs into the overall limit
+COQC_LIMIT = int(os.environ.get('VERIF_COQC_LIMIT', '600') or 600)
+MAKE = 'make -j%d TIMECMD="timeout %d"' % (NPROC, COQC_LIMIT)
 FORBIDDEN = r"Admitted|\badmit\b|^\s*Axiom\b|^\s*Parameter\b|^\s*Conjecture\b|^\s*Hypothesis\b|^\s*Variables?\b|Unset Guard|bypass_check|type-in-type|impredicative-set|Admit Obligations|Unset Positivity|Unset Universe"
 
 
@@ -99,18 +103,21 @@ def build_model(pid, want_proof=True):
         tstatus = run_translator()
         ensure_makefile()
         info = {'translator': tstatus, 'proof_ok': False, 'model_ok': False, 'broken': None, 'log_tail': '', 'theorems': [], 'axioms': []}
-        rc, out, err = sh('timeout 3000 make -j%d Extract.vo' % NPROC, cwd=COQ)
+        rc, out, err = sh('timeout 3000 %s Extract.vo' % MAKE, cwd=COQ)
         info['model_ok'] = rc == 0
         if rc != 0:
             info['model_log'] = (out + err)[-2000:]
         prop = os.path.join(COQ, 'Props', pid + '.v')
         if want_proof and os.path.exists(prop):
-            rc, out, err = sh(f'timeout 3000 make -j{NPROC} Props/{pid}.vo', cwd=COQ)
+            rc, out, err = sh(f'timeout 3000 {MAKE} Props/{pid}.vo', cwd=COQ)
             log = out + err
             info['proof_ok'] = rc == 0
             if rc != 0:
                 m = re.search(r'File "\./([^"]+)", line (\d+)', log)
                 info['broken'] = f'{m.group(1)}:{m.group(2)}' if m else 'unknown'
+                mt = re.search(r'\*\*\* \[Makefile:\d+: (\S+)\.vo\] Error 124', log)
+                if not m and mt:
+                    info['broken'] = '%s.v (coqc stopped after %d s: a proof script no longer terminates)' % (mt.group(1), COQC_LIMIT)
                 info['log_tail'] = log[-2500:]
                 # name the theorem/lemma that no longer checks
                 if m:
